@@ -23,6 +23,11 @@ CHECKS = {
             "the exported datagram sequence is compared with the sender's per-datagram STREAM concatenations, and monitors compare every reconstructed packet number "
             "and parsed frame list with what was sent. Held on the executions observed.",
             TRUST, "3/C02"),
+    "C05": ("exploration", "runtime monitor on the real Session.handle_tls_record (record list handed over == sender's record list, exactly once, in order) over exhaustively enumerated deliveries + end-to-end stream equality under perturbed delivery",
+            "Real Session objects are fed real packets; for short streams every cut set, every single/double duplicate insertion and every bounded displacement is "
+            "enumerated (tens of thousands of delivery histories per quick run), including sequence-number wrap at every offset; full end-to-end runs repeat the relation "
+            "with real cipher suites. Exhaustive only for the short streams enumerated.",
+            TRUST, "3/C05"),
     "C11": ("exploration", "runtime monitor comparing the real checksum routines with an independent RFC 1071 verifier on solved-for boundary packets + metamorphic end-to-end oracle (-c with corrupted packets == no -c with them removed)",
             "The real calculate_checksum_tcp/udp run on real Packet objects whose payloads are solved so that the unfolded sum hits every carry/fold boundary and "
             "the 0x0000/0xFFFF checksum values; the end-to-end relation of the property is checked byte for byte on TLS and QUIC scenes with arbitrary corrupted subsets.",
